@@ -287,6 +287,12 @@ func oracle(p *progSpec, o *obsT, res *okT, er *errT) []hk.Failure {
 	}
 	um := p.refUnmarshalFails(finalT.B)
 	if !o.Panic && !stale && p.ReqErr == 0 && !(p.Unreplayable && p.Retry && p.Max != 0) {
+		if o.Present && finalT.Fail != 0 && !fabRan && !twiceRan && len(at.Wraps) == 0 {
+			// classification is of the response of the LAST exchange: when that exchange failed in the
+			// transport there is none - handing back the superseded one (e.g. the 401 a failed digest
+			// re-send replaced) would classify and bind a response the call did not end with
+			fail("stale-response", "the last exchange failed in the transport but the call hands back the HTTP response of the exchange it superseded", o.Status, "no HTTP response")
+		}
 		if o.Present && finalT.Fail == 0 && o.Status != finalT.Status {
 			fail("status", "response status differs from what the origin sent", o.Status, finalT.Status)
 		}
